@@ -252,15 +252,20 @@ func readConfig(args []string) *CliConfig {
 			log.Fatal("Config read failed", zap.Error(err))
 		}
 	}
-	pools := v.Get("pools").([]any)
-	for i, pool := range pools {
-		poolMap := pool.(map[string]any)
-		if _, ok := poolMap["discard_overflow"]; !ok {
-			poolMap["discard_overflow"] = true
+	// pools of unexpected shape are left as is: config decoding reports them as an error
+	if pools, ok := v.Get("pools").([]any); ok {
+		for i, pool := range pools {
+			poolMap, ok := pool.(map[string]any)
+			if !ok {
+				continue
+			}
+			if _, ok := poolMap["discard_overflow"]; !ok {
+				poolMap["discard_overflow"] = true
+			}
+			pools[i] = poolMap
 		}
-		pools[i] = poolMap
+		v.Set("pools", pools)
 	}
-	v.Set("pools", pools)
 
 	conf := DefaultConfig()
 	err = config.DecodeAndValidate(v.AllSettings(), conf)
